@@ -281,3 +281,91 @@ N("t-n-abi3-split", TG, """        allow_abi3 = impl == "cp" and (
             self.implementation is None or not self.implementation.gil_disabled
         )""", """        gil_off = self.implementation is not None and self.implementation.gil_disabled
         allow_abi3 = impl == "cp" and not gil_off""", props=["C08"])
+M("p-floor-16", PL, """            Arch.S390X,
+            Arch.RISCV64,
+        ]:
+            return 17""", """            Arch.S390X,
+            Arch.RISCV64,
+        ]:
+            return 16""", fire=["C09"])
+M("p-min-minor-excl", PL, "for minor in range(os_.minor, min_minor - 1, -1):", "for minor in range(os_.minor, min_minor, -1):", fire=["C09"])
+M("p-alias-2010", PL, "if minor == 12:", "if minor == 11:", fire=["C09"])
+M("p-alias-2014", PL, "if minor == 17:", "if minor == 16:", fire=["C09"])
+M("p-musl-range0", PL, "for minor in range(1, os_.minor + 1):", "for minor in range(0, os_.minor + 1):", fire=["C09"])
+M("p-musl-range-excl", PL, "for minor in range(1, os_.minor + 1):", "for minor in range(1, os_.minor):", fire=["C09"])
+M("p-mac-1015", PL, """                for minor in range(16, 3, -1):
+                    for binary_format in arch.get_mac_binary_formats():""", """                for minor in range(15, 3, -1):
+                    for binary_format in arch.get_mac_binary_formats():""", fire=["C09"])
+M("p-mac-arm-universal2", PL, """        if self in [Arch.X86_64, Arch.Aarch64]:
+            formats.append("universal2")""", """        if self in [Arch.X86_64]:
+            formats.append("universal2")""", fire=["C09"])
+M("p-mac-major-asc", PL, """            for major in range(os_.major, 10, -1):
+                for binary_format in arch.get_mac_binary_formats():
+                    platform_tags.append(f"macosx_{major}_0_{binary_format}")
+            # The "universal2" binary format can have a macOS version earlier than 11.0
+            # when the x86_64 part of the binary supports that version of macOS.
+            for minor in range(16, 3, -1):
+                platform_tags.append""", """            for major in range(11, os_.major + 1):
+                for binary_format in arch.get_mac_binary_formats():
+                    platform_tags.append(f"macosx_{major}_0_{binary_format}")
+            # The "universal2" binary format can have a macOS version earlier than 11.0
+            # when the x86_64 part of the binary supports that version of macOS.
+            for minor in range(16, 3, -1):
+                platform_tags.append""", fire=["C09"])
+M("p-score-index", TG, "return len(platform_tags) - platform_tags.index(platform_tag)", "return 1 + platform_tags.index(platform_tag)", fire=["C09"])
+M("p-win-arm", PL, 'platform_tags.append("win_arm64")', 'platform_tags.append("win_aarch64")', fire=["C09"])
+M("p-linux-first", PL, """            # Non-manylinux is lowest priority
+            # <https://github.com/pypa/packaging/blob/fd4f11139d1c884a637be8aa26bb60a31fbc9411/packaging/tags.py#L444>
+            platform_tags.append(f"linux_{arch}")""", """            platform_tags.insert(0, f"linux_{arch}")""", fire=["C09"])
+M("c-compare-lt", TG, """            if (self.platform.os.major, self.platform.os.minor) <= (  # type: ignore[attr-defined]""", """            if (self.platform.os.major, self.platform.os.minor) >= (  # type: ignore[attr-defined]""", fire=["C16"])
+M("c-compare-arch", TG, """        if self.platform.arch != target.platform.arch:
+            return EnvCompatibility.INCOMPATIBLE
+""", "", fire=["C16"])
+M("c-compare-ostype", TG, """        if type(self.platform.os) is not type(target.platform.os):
+            return EnvCompatibility.INCOMPATIBLE
+""", "", fire=["C16"])
+M("c-compare-minor-only", TG, """            if (self.platform.os.major, self.platform.os.minor) <= (  # type: ignore[attr-defined]
+                target.platform.os.major,  # type: ignore[attr-defined]
+                target.platform.os.minor,  # type: ignore[attr-defined]
+            ):""", """            if (self.platform.os.minor, self.platform.os.major) <= (  # type: ignore[attr-defined]
+                target.platform.os.minor,  # type: ignore[attr-defined]
+                target.platform.os.major,  # type: ignore[attr-defined]
+            ):""", fire=["C16"])
+M("c-compare-impl-asym", TG, """            self.implementation is not None
+            and target.implementation is not None
+            and self.implementation != target.implementation""", """            self.implementation is not None
+            and self.implementation != target.implementation""", fire=["C16"])
+M("c-compare-refl", TG, """        if self == target:
+            return EnvCompatibility.LOWER_OR_EQUAL
+        if (self.requires_python""", """        if self == target:
+            return EnvCompatibility.HIGHER
+        if (self.requires_python""", fire=["C16"])
+M("w-ext", TG, 'if not filename.endswith(".whl"):', 'if not filename.endswith("whl"):', fire=["C18"])
+M("w-dashes", TG, "if dashes not in (4, 5):", "if dashes not in (4, 5, 6):", fire=["C18"])
+M("w-parts", TG, "python, abi, platform = parts[-3:]", "python, abi, platform = parts[2:5]", fire=["C18"])
+M("w-nosplit", TG, 'return python.split("."), abi.split("."), platform.split(".")', 'return python.split("."), [abi], platform.split(".")', fire=["C18"])
+M("w-alias-macos", PL, """        elif platform == "macos":
+            return cls(os.Macos(14, 0), Arch.Aarch64)""", """        elif platform == "macos":
+            return cls(os.Macos(13, 0), Arch.Aarch64)""", fire=["C18"])
+M("w-alias-alpine", PL, "return cls(os.Musllinux(1, 2), Arch.X86_64)", "return cls(os.Musllinux(1, 1), Arch.X86_64)", fire=["C18"])
+M("w-str-arm64", PL, 'return f"{self.os}_arm64"', 'return f"{self.os}_aarch64_"', fire=["C18"])
+M("w-parse-arm64", PL, """        if arch == "arm64":
+            return cls.Aarch64""", """        if arch == "arm64":
+            return cls.Armv7L""", fire=["C18"])
+M("w-regex-minor", PL, r"(?P<major>\d+?)_(?P<minor>\d+?)_(?P<arch>[a-z0-9_]+)$", r"(?P<major>\d+?)_(?P<minor>\d)_(?P<arch>[a-z0-9_]+)$", fire=["C18"])
+N("p-n-reversed-range", PL, "for minor in range(1, os_.minor + 1):", "for minor in reversed(range(1, os_.minor + 1)):", props=["C09", "C16"])
+N("p-n-formats-concat", PL, """        if self == Arch.X86_64:
+            formats.extend(["intel", "fat64", "fat32"])""", """        if self == Arch.X86_64:
+            formats = formats + ["intel", "fat64", "fat32"]""", props=["C09"])
+N("c-n-compare-reorder", TG, """        if self.platform.arch != target.platform.arch:
+            return EnvCompatibility.INCOMPATIBLE
+        if type(self.platform.os) is not type(target.platform.os):
+            return EnvCompatibility.INCOMPATIBLE
+""", """        if type(self.platform.os) is not type(target.platform.os):
+            return EnvCompatibility.INCOMPATIBLE
+        if self.platform.arch != target.platform.arch:
+            return EnvCompatibility.INCOMPATIBLE
+""", props=["C16"])
+N("w-n-dashes-len", TG, """    dashes = filename.count("-")
+    if dashes not in (4, 5):""", """    dashes = len(filename.split("-")) - 1
+    if not 4 <= dashes <= 5:""", props=["C18"])
